@@ -225,8 +225,8 @@ class Interp:
         else:
             self.obs.append(ObResult(ob_id, "undecided", dt, "solver returned unknown (" + self.solver.reason_unknown() + ") " + detail,
                                      kind=kind, path=self.prefix[:self.pos], line=self.cur_line))
-        if kind != "post":
-            self.assume(goal)
+        # a failed / undecided obligation is NOT assumed afterwards: later obligations on this path are then checked on their own merits
+        # (otherwise the first failure would mask, by vacuity, the failures it causes downstream)
         return False
 
     def trust(self, name):
@@ -720,9 +720,14 @@ class Interp:
             elif isinstance(v, float):
                 if n in names:
                     env.vars[n] = SV(L.fresh(n, L.RealS))
-            elif isinstance(v, bool) or v is None:
+            elif v is None:
                 if n in names:
-                    raise Unsupported(f"loop modifies the boolean/None local '{n}': not havocable")
+                    # a local that starts as None and is assigned in the body: at an arbitrary iteration it is None or some number
+                    if self.decide([z3.BoolVal(True), z3.BoolVal(True)]) == 1:
+                        env.vars[n] = SV(L.fresh(n, L.RealS))
+            elif isinstance(v, bool):
+                if n in names:
+                    env.vars[n] = SV(L.fresh(n, L.BoolS))
             elif isinstance(v, ItemV):
                 if n in names:
                     env.vars[n] = ItemV(L.fresh(n, L.Item))
